@@ -149,6 +149,23 @@ def gen_zone(rng):
                        "negative_dst", "base_change", "big_jump", "random",
                        "random", "no_transitions", "one_type"])
     if rng.random() < 0.04:
+        # offsets far outside the civil -12..+14 h range (the format allows
+        # anything that fits 32 bits; Python anything short of 24 h): falls
+        # and rises of more than a day between consecutive types
+        t0 = rng.choice([-600000000, 0, 500000000]) + \
+            rng.randrange(0, 86400 * 300)
+        offs = [rng.choice([15, 18, 20, -15, -18, -20, 0, 5, -12]) * 3600 +
+                rng.choice([0, 1800, 59 * 60]) for _ in range(5)]
+        # (all standard time: with a daylight flag the difference to the
+        # preceding standard offset would have to be a legal dst() value)
+        xt = [[o, False, ["XAA", "XBB", "XCC", "XDD", "XEE"][i]]
+              for i, o in enumerate(offs)]
+        k = rng.randrange(3, 9)
+        return dict(kind="synthetic", mode="extreme_offsets",
+                    trans=[t0 + 200 * 86400 * j for j in range(k)],
+                    idx=[(j + 1) % 5 for j in range(k)], types=xt,
+                    isstd=[], isgmt=[], leaps=[], version=2)
+    if rng.random() < 0.04:
         # the format's own limits: up to 256 local time types, type indices
         # that do not fit a signed byte; every transition switches to the
         # next type, half an hour apart in offset, a week apart in time
@@ -591,7 +608,9 @@ class Loader(object):
             links=[("Area/Link", "Area/Zone", "sym"),
                    ("Area/Hard", "Area/Zone", "hard"),
                    ("Area/ToRoot", "Zone", "hard")],
-            metadata=b'{"tzversion": "sim"}', order=archive_order)
+            # METADATA is optional in an archive
+            metadata=b'{"tzversion": "sim"}'
+            if (len(data) + len(name)) % 3 else None, order=archive_order)
         if archive_order != "links_last":
             ctx.probe("archive_order." + archive_order)
         world.bundle = ZW.make_archive({"Bundle/Zone": data})
